@@ -291,6 +291,10 @@ def render_cpp(prog, plan, header_names):
                     errv = 'printf("()");' if ret[2][0] == "unit" else "{ auto ev = std::move(r).err(); auto& v = dv_get(*ev); %s }" % g.show(ret[2], "v")
                     body = ('if (r.is_ok()) { auto s = std::move(r).ok().value(); printf("ok(()) write=s\\""); for (unsigned char ch : s) printf("%%02x", (unsigned)ch); printf("\\""); } '
                             'else { printf("err("); %s printf(") write=s\\"SKIP\\""); }') % errv
+                elif ret[0] == "opt" and ret[1][0] == "unit":
+                    # Option<()> + write: std::optional<std::string>
+                    body = ('if (r.has_value()) { printf("some(()) write=s\\""); for (unsigned char ch : *r) printf("%02x", (unsigned)ch); printf("\\""); } '
+                            'else { printf("none write=s\\"SKIP\\""); }')
                 else:
                     body = 'printf("unsupported-write-shape");'
             elif ret is None:
